@@ -27,7 +27,8 @@ def run_one(rng, inst, size, have, fill, bs):
     seen = 0
     cf_since = 0
     emitted_payload = 0
-    for step in range(400):
+    short = fill is None and have < size      # the error comes at the very end: run to completion
+    for step in range(4000 if short else 400):
         pr.proc(0)
         new = pr.wire[0][seen:]
         seen = len(pr.wire[0])
@@ -50,7 +51,7 @@ def run_one(rng, inst, size, have, fill, bs):
                     cf_since = 0
         pulls = pr.impl[0].pulls[0][0] if pr.impl[0].pulls else 0
         trace.append((pulls, emitted_payload))
-        if not pr.impl[0].layer.transmitting() or seen > 60:
+        if not pr.impl[0].layer.transmitting() or (seen > 60 and not short):
             break
         if need:
             pr.op(0, 'rx', rid, int(ext), hx(pfx + bytes([0x30, bs, 0])))
